@@ -10,60 +10,54 @@ NORMALISERS = ("os.path.abspath", "os.path.normpath", "os.path.realpath")
 
 
 def rule_norm_path(ctx, r):
-    """Every path returned by _norm_path is fspath()-converted, resolved against the target's working directory when relative, and normalised."""
+    """Every path handed out by _norm_path is fspath()-converted, resolved against the target's working directory when relative,
+    and normalised.  Decided by template evaluation of the (pure) function over representatives of its two input classes
+    (relative / absolute spellings, str / PathLike); the only branch it may take is on isabs()."""
+    from ..paths import Explorer, Semantics, State, RETURN
+    from ..symeval import Obj, PureInterp, Raised, Unsupported, tok
     idx = ctx.index
     np_ = idx.func(f"{CORE}:_norm_path")
     con = f"{np_.module.relpath}::{np_.qual}"
-    wd, path = np_.positional_params()[:2]
-    rets = [n for n in walk_no_nested(np_.node) if isinstance(n, ast.Return)]
-    if not rets:
-        r.violation(con, "_norm_path returns nothing", np_.where)
-    fs_ok = any(isinstance(n, ast.Assign) and dotted(n.targets[0]) == path and isinstance(n.value, ast.Call)
-                and idx.canon(n.value.func, np_.module) in ("os.fspath", "builtins.str") for n in np_.node.body)
-    inline_fs = any(isinstance(c.func, (ast.Name, ast.Attribute)) and idx.canon(c.func, np_.module) == "os.fspath" for c in _calls(np_.node))
-    r.check(fs_ok or inline_fs, con + "::fspath", "path objects are converted with fspath() first", "path objects (os.PathLike) are not converted before normalising", np_.where)
-    for rt in rets:
-        v = rt.value
-        where = loc(rt, np_.module)
-        guards = [a for a in ancestors(rt) if isinstance(a, ast.If)]
-        under_isabs = None
-        for g in guards:
-            t = g.test
-            neg = False
-            if isinstance(t, ast.UnaryOp) and isinstance(t.op, ast.Not):
-                t, neg = t.operand, True
-            if isinstance(t, ast.Call) and idx.canon(t.func, np_.module) == "os.path.isabs":
-                in_body = any(rt in list(ast.walk(s)) for s in g.body)
-                under_isabs = in_body ^ neg
-        if not (isinstance(v, ast.Call) and isinstance(v.func, (ast.Name, ast.Attribute)) and idx.canon(v.func, np_.module) in NORMALISERS and len(v.args) == 1):
-            r.violation(con + "::normalised", f"`return {ast.unparse(v)[:70]}` hands out a path that was not passed through abspath/normpath: "
-                        "spellings like './x', 'd/../x' or '/wd//x' of one file no longer compare equal, so dependency edges, the multiple-provider "
-                        "check and clean's protection silently miss", where)
-            continue
-        inner = v.args[0]
-        joined = isinstance(inner, ast.Call) and idx.canon(inner.func, np_.module) == "os.path.join" and len(inner.args) == 2 and \
-            dotted(inner.args[0]) == wd and dotted(inner.args[1]) == path
-        bare = dotted(inner) == path
-        if joined:
-            r.ok(con + "::normalised", f"{idx.canon(v.func, np_.module)}(join({wd}, {path}))", where)
-        elif bare and under_isabs:
-            r.ok(con + "::normalised", f"absolute path -> {idx.canon(v.func, np_.module)}({path})", where)
-        elif bare:
-            r.violation(con + "::relative", f"`return {ast.unparse(v)}` resolves a possibly relative path without joining it to the target's working directory "
-                        "(it would be resolved against the directory gwf was started from)", where)
-        else:
-            r.violation(con + "::normalised", f"`return {ast.unparse(v)[:70]}` does not normalise join(working_dir, path)", where)
+
+    class _Plain(Semantics):
+        def may_raise(self, node, state):
+            return []
+    outs = Explorer(_Plain(idx, np_)).run(State())
+    fall = [o for o in outs if o.kind == RETURN and o.payload is None]
+    r.check(not fall, con + "::total", "every path returns a path", "a path through _norm_path ends without returning a value (the 'normalised path' is None)", np_.where)
+    WD = tok("WD")
+    interp = PureInterp(ctx)
+
+    def ev(fn, *args):
+        try:
+            return interp.call(fn, args)
+        except (Raised, Unsupported) as exc:
+            return f"<{exc}>"
+
+    bad_rel, bad_abs = [], []
+    for p in ("x", "./x", "d/../x", "a//b", "sub/dir/f.txt"):
+        got = ev(np_, WD, p)
+        want = {tok("abs:" + WD + "/" + p), tok("norm:" + WD + "/" + p)}
+        if got not in want:
+            bad_rel.append((p, got))
+    for p in ("/p/d/../x", "/p//x", "/p/./x", "/p/x"):
+        got = ev(np_, WD, p)
+        if got != "/p/x":
+            bad_abs.append((p, got))
+    r.check(not bad_rel, con + "::relative", "a relative path is joined to the target's working directory and normalised (abspath/normpath of the join)",
+            f"relative spellings are not resolved as normalise(join(working_dir, path)): {[(p, str(g).replace(WD, '<wd>')) for p, g in bad_rel[:3]]} - spellings like './x' and 'd/../x' "
+            "of one file no longer compare equal (or are resolved against the invoking directory), so dependency edges, the multiple-provider check and clean's protection miss",
+            np_.where)
+    r.check(not bad_abs, con + "::absolute", "an absolute path is normalised ('/p/d/../x', '/p//x', '/p/./x' all become '/p/x')",
+            f"absolute spellings are not normalised: {bad_abs[:3]} - '/wd/d/../x' no longer matches the output 'x' of a target in /wd", np_.where)
+    got = ev(np_, WD, Obj("pathlike", __fspath__="x"))
+    r.check(got in (tok("abs:" + WD + "/x"), tok("norm:" + WD + "/x")), con + "::fspath", "path objects are converted with fspath() first",
+            f"a path object is not converted before normalising (result {str(got)[:60]})", np_.where)
     nps = idx.func(f"{CORE}:_norm_paths")
-    txt = ast.unparse(nps.node)
-    p = nps.positional_params()
-    ok = False
-    for n in walk_no_nested(nps.node):
-        if isinstance(n, ast.Return) and isinstance(n.value, (ast.ListComp, ast.GeneratorExp)):
-            g = n.value.generators[0]
-            ok = not g.ifs and dotted(g.iter) == p[1] and ast.unparse(n.value.elt) == f"_norm_path({p[0]}, {dotted(g.target)})"
-    extra = [n for n in nps.node.body if not isinstance(n, (ast.Return, ast.Expr))]
-    r.check(ok and not extra, f"{nps.module.relpath}::{nps.qual}", "every path goes through _norm_path with the target's working directory",
-            "_norm_paths does not simply map _norm_path(working_dir, p) over all paths", nps.where)
+    got = ev(nps, WD, ["a", "/b/../c", "./d"])
+    want = [ev(np_, WD, "a"), ev(np_, WD, "/b/../c"), ev(np_, WD, "./d")]
+    r.check(got == want, f"{nps.module.relpath}::{nps.qual}", "every path goes through _norm_path with the target's working directory, order kept",
+            f"_norm_paths does not map _norm_path(working_dir, p) over all paths (got {str(got)[:80]})", nps.where)
 
 
 def _loops_over(fn, accessor):
@@ -79,7 +73,8 @@ def _loops_over(fn, accessor):
 
 def rule_graph_construction(ctx, r):
     idx = ctx.index
-    ft = idx.func(f"{CORE}:Graph.from_targets")
+    from ..inline import inlined
+    ft = inlined(ctx, idx.func(f"{CORE}:Graph.from_targets"))
     con = f"{ft.module.relpath}::{ft.qual}"
     out_loops = _loops_over(ft, "flattened_outputs")
     in_loops = _loops_over(ft, "flattened_inputs")
